@@ -136,7 +136,7 @@ def gen_scalar(rng, kinds=None):
     if k == "Z":
         return W.EV(W.V_BOOLEAN, rng.random() < 0.5)
     if k == "str":
-        return W.EV(W.V_STRING, rng.choice(["", "a", "héllo", "x\x00y", "😀", "line\nbreak"]), rng.choice([None, None, 2, 4]))
+        return W.EV(W.V_STRING, rng.choice(["", "a", "héllo", "x\x00y", "😀", "line\nbreak", "say \"hi\"", "back\\slash", "Dear {{name}}, welcome", "{0} of {1}", "{}", "%s%%d", "\ud800x", "tab\there", "it's"]), rng.choice([None, None, 2, 4]))
     if k == "type":
         return W.EV(W.V_TYPE, rng.choice(["I", "[J", "Ljava/lang/String;", "Lp/V;"]), rng.choice([None, None, 2, 4]))
     if k == "field":
